@@ -173,6 +173,7 @@ def check(fx, rep, tier):
     rep.rule('R19.2', 'WriteHalf::write impls: every write starts at buf[progress..], accepted bytes advance every later write, Ok only when all is written')
     rep.rule('R19.3', 'no write progress is held only in the future of WriteHalf::write (cancel-safety of an abandoned send)')
     rep.rule('R19.4', 'inherited descriptors are made non-blocking (checked) before they are registered with the reactor')
+    rep.rule('R19.8', 'the transports never shut down the read direction of the socket the two halves share')
     rep.rule('R19.5', 'outbound framing (all rules of C02) holds')
     rep.rule('R19.6', 'inbound framing (all rules of C01) holds')
     core = fx.crate('zlink_core', 'full')
@@ -264,6 +265,29 @@ def check(fx, rep, tier):
                       'the inherited descriptor is registered with the reactor without a checked set_nonblocking(true) before it', det)
     if n4 < 2:
         rep.bad('R19.4', 'anchor', '-', 'expected TryFrom<OwnedFd> for Listener in both transport crates, found %d' % n4)
+    # ---- R19.8 the two halves share one descriptor: nothing in a transport crate may shut down the *read* direction of the socket
+    # (shutdown(Write) on drop of the write half would be a legitimate half-close; Read / Both cuts off the peer's later messages)
+    n_sd = 0
+    for cn in ('zlink_tokio', 'zlink_smol'):
+        crate = fx.crate(cn, 'full')
+        for body in crate.bodies:
+            if body.in_test:
+                continue
+            for b, t in body.iter_terms('call'):
+                if t['callee'].get('name') != 'shutdown' or len(t['args']) < 2:
+                    continue
+                tr = body.trace(t['args'][1])
+                how = tr['rv'].get('variant') if tr.get('kind') == 'aggr' and 'Shutdown' in (tr['rv'].get('adt') or '') else None
+                if 'Shutdown' not in (t['args'][1].get('place', {}).get('ty') or t['args'][1].get('ty') or ''):
+                    continue
+                n_sd += 1
+                rep.check(how == 'Write', 'R19.8', '%s|%s|shutdown-%s' % (cn, body.path, how), C.where(body, b),
+                          'a shutdown issued by the transport closes the write direction only',
+                          'the transport shuts down the %s direction of the socket that the read half shares (%s): once this runs - here when `%s` executes - '
+                          'the peer\'s later messages are lost (its send fails, the local receive reports end-of-stream)'
+                          % ('read and write' if how == 'Both' else (how or 'unknown'), t['callee'].get('def'), body.path))
+    rep.ok('R19.8', 'transport|shutdown-sites-enumerated', 'zlink-tokio/src, zlink-smol/src',
+           'every call of a socket shutdown in the transport crates was examined (%d site%s)' % (n_sd, '' if n_sd == 1 else 's'), nontrivial=False)
     # ---- R19.5 / R19.6 imports
     import engine, c02, c01
     for rid, mod, pid in (('R19.5', c02, 'C02'), ('R19.6', c01, 'C01')):
